@@ -91,9 +91,34 @@ def run(run):
                 return a + b if t[1] == "Add" else a - b
         return None
 
+    LIMIT = 1 << 20
+    masked = []
+
+    def subject(l, var):
+        """None | ('id',) | ('mod', m): l is the variable itself or the variable reduced modulo m (x & (2^k-1), x % m)"""
+        l = S.value(l)
+        while l[0] == "cast":
+            l = S.value(l[1])
+        if l == var:
+            return ("id",)
+        if l[0] == "bin" and l[1] in ("BitAnd", "Rem"):
+            a, b = S.value(l[2]), S.value(l[3])
+            if l[1] == "BitAnd" and const_of(a) is not None and b == var:
+                a, b = b, a
+            if a == var and const_of(b) is not None:
+                c = const_of(b)
+                if l[1] == "Rem" and c > 0:
+                    return ("mod", c)
+                if l[1] == "BitAnd" and c >= 0 and (c & (c + 1)) == 0:
+                    return ("mod", c + 1)
+        return None
+
     def sat(t, var):
         """interval set of values of `var` satisfying boolean term t"""
         t = S.value(t)
+        if t[0] == "seq":
+            # `let arg = arg & MASK; pred(arg)`: immutable shadowing is inlined by the normaliser; a seq here means effects
+            t = S.value(t[2])
         if t[0] == "and":
             return inter(sat(t[1], var), sat(t[2], var))
         if t[0] == "or":
@@ -107,9 +132,27 @@ def run(run):
             if S.value(r) == var and const_of(l) is not None:
                 l, r = r, l
                 op = {"Gt": "Lt", "Lt": "Gt", "Ge": "Le", "Le": "Ge"}.get(op, op)
-            if S.value(l) == var and const_of(r) is not None:
+            if subject(r, var) and const_of(l) is not None and not subject(l, var):
+                l, r = r, l
+                op = {"Gt": "Lt", "Lt": "Gt", "Ge": "Le", "Le": "Ge"}.get(op, op)
+            sj = subject(l, var)
+            if sj and const_of(r) is not None:
                 c = const_of(r)
-                return norm_iv({"Gt": [(c + 1, U64)], "Ge": [(c, U64)], "Lt": [(0, c - 1)], "Le": [(0, c)], "Eq": [(c, c)], "Ne": [(0, c - 1), (c + 1, U64)]}[op])
+                base = norm_iv({"Gt": [(c + 1, U64)], "Ge": [(c, U64)], "Lt": [(0, c - 1)], "Le": [(0, c)], "Eq": [(c, c)], "Ne": [(0, c - 1), (c + 1, U64)]}[op])
+                if sj[0] == "id":
+                    return base
+                # the verdict is taken on `x mod m`: the accepted set is periodic; expanded over a bounded universe
+                m = sj[1]
+                masked.append(m)
+                if m < 2 or LIMIT // m > 4096:
+                    raise Unknown(fmt(t))
+                res = inter(base, [(0, m - 1)])
+                out = []
+                q = 0
+                while q * m < LIMIT:
+                    out.extend((q * m + a, q * m + b) for a, b in res)
+                    q += 1
+                return inter(norm_iv(out), [(0, LIMIT - 1)])
         if is_call(t, ("eq", "ne")) and len(t[2]) == 2:
             return sat(("bin", "Eq" if t[1] == "eq" else "Ne", t[2][0], t[2][1]), var)
         if t[0] == "match":
@@ -130,7 +173,17 @@ def run(run):
         want = norm_iv([(0o200, 0o776), (0o1000, U64)])
         try:
             got = sat(t, pid)
-            if got == want:
+            if masked:
+                # sets are only known below LIMIT; a difference there is a difference, equality there decides nothing
+                uni = [(0, LIMIT - 1)]
+                g2, w2 = inter(got, uni), inter(want, uni)
+                if g2 != w2:
+                    diff = norm_iv(inter(w2, compl(g2)) + inter(g2, compl(w2)))
+                    wit = diff[0][0]
+                    run.violated("R1", "umask|accepted-set", "the verdict is taken on the argument reduced modulo %s, not on its actual value: e.g. the argument %s is %s although the property says the opposite (warn exactly for values > 0o177 that differ from 0o777)" % (oct(masked[0]), oct(wit), "not reported" if inter([(wit, wit)], w2) else "reported"), site)
+                else:
+                    run.undecided("R1", "umask|accepted-set", "the predicate reduces the argument modulo %s; equal to the specification below 2^20 only" % oct(masked[0]), site)
+            elif got == want:
                 run.holds("R1", "umask|accepted-set", "accepted set = [0o200, 0o776] U [0o1000, 2^64-1]", site)
             else:
                 def show(iv):
